@@ -157,6 +157,8 @@ def toy_binary_scenario(draw, cap=400, max_phases=3, allow_profile=True, sites=N
     gbs = [p for p in phases if p["site"] in KMAX]
     if gbs:
         kf = draw(st.floats(0.0, 0.95))
+        if draw(st.integers(0, 7)) == 0:
+            kf = 0.0          # grain-boundary energy exactly 0 (documented: equivalent to bulk precipitation)
         sc["gbe"] = min(2 * kf * KMAX[p["site"]] * p["gamma"] for p in gbs)
     if draw(st.integers(0, 3)) == 3:
         sc["nucdens"] = {"grainSize": 10 ** draw(st.floats(-1, 2.5)), "aspectRatio": draw(st.floats(1, 3)), "dislocationDensity": 10 ** draw(st.floats(10, 15))}
@@ -226,6 +228,8 @@ def toy_multi_scenario(draw, cap=300, max_phases=2, allow_profile=True, min_phas
     gbs = [p for p in phases if p["site"] in KMAX]
     if gbs:
         kf = draw(st.floats(0.0, 0.95))
+        if draw(st.integers(0, 7)) == 0:
+            kf = 0.0          # grain-boundary energy exactly 0 (documented: equivalent to bulk precipitation)
         sc["gbe"] = min(2 * kf * KMAX[p["site"]] * p["gamma"] for p in gbs)
     _draw_api(draw, sc)
     return sc
